@@ -73,6 +73,7 @@ class Scheduler:
         # (a superset of what a GIL build can do between two lines that hold
         # no call or backward jump; exact for free-threaded builds)
         self.dense = dense
+        self._last_line = {}
         self.strategy = strategy
         self.kind = strategy[0]
         self.rng = random.Random(seed)
@@ -181,16 +182,31 @@ class Scheduler:
         self.point('simfs.' + op, 0)
 
     def _cb_start(self, code, off):
+        if self.dense:
+            self._last_line.pop(threading.get_ident(), None)
         self.point(code.co_qualname, off)
 
     def _cb_jump(self, code, off, dst):
         if dst < off:
+            if self.dense:
+                self._last_line.pop(threading.get_ident(), None)
             self.point(code.co_qualname, off)
 
     def _cb_cret(self, code, off, callable_, arg0):
+        if self.dense:
+            self._last_line.pop(threading.get_ident(), None)
         self.point(code.co_qualname, off)
 
     def _cb_line(self, code, line):
+        # the interpreter may report one line twice in a row depending on how
+        # far its adaptive specialisation of that code has got (measured: a
+        # conditional expression reports its line once cold and twice warm);
+        # nothing monitored lies between the two, so they are one point
+        tid = threading.get_ident()
+        key = (code, line)
+        if self._last_line.get(tid) == key:
+            return
+        self._last_line[tid] = key
         self.point(code.co_qualname, -line)
 
     def install(self, codes):
